@@ -47,6 +47,12 @@ Proof. exact (root_denotes_ghost V V_eq_dec). Qed.
 Theorem C18_no_double_release : forall s o s' log, Inv s -> valid_op V s o -> step s o = Some (s', log) ->
   NoDup log /\ forall j, In j log -> nlookup V s j <> None /\ nlookup V s' j = None /\ ~ In j (reflist V s').
 Proof. exact (no_double_release V V_eq_dec). Qed.
+(* over a whole history: the concatenation of all deletions has no duplicates (no node is released
+   twice; addresses are fresh in the model, a deleted node stays dead), every deleted node was not
+   dead at the start and is dead at the end *)
+Theorem C18_no_double_release_run : forall os s s' log, Inv s -> valid_run V V_eq_dec s os -> run s os = Some (s', log) ->
+  NoDup log /\ (forall j, In j log -> ~ dead V s j /\ dead V s' j) /\ fresh_ok V s s'.
+Proof. exact (run_no_double_release V V_eq_dec). Qed.
 (* the counter of every node is the number of its referrers (roots of live objects + parent edges),
    and it is positive *)
 Theorem C18_counts : forall s i n, Inv s -> nlookup V s i = Some n ->
@@ -83,6 +89,7 @@ Print Assumptions C18_inv_empty.
 Print Assumptions C18_frame.
 Print Assumptions C18_root_denotes_ghost.
 Print Assumptions C18_no_double_release.
+Print Assumptions C18_no_double_release_run.
 Print Assumptions C18_counts.
 Print Assumptions C18_sizes_determined.
 Print Assumptions C18_baseline.
